@@ -20,9 +20,11 @@ PROPS = {
     "C09": {
         "rule": "random histories (≤ 24 / ≤ 40 ops) of grow / fill a not-yet-flushed slot / write_to_file(None|Some(entry)) on the real "
                 "DirSection over a recording destination with random pre-existing content and start offset (one case in five positioned at or beyond 4 GiB in a sparse destination); one third of the cases "
-                "inject an I/O failure or short writes at a random trait-level call. Non-trivial = at least two flushes; distinct = "
+                "inject an I/O failure or short writes at a random trait-level call; plus real dumps of live targets (the C01 generator) into a recording destination "
+                "with pre-existing content and a non-zero starting position: bytes before the start untouched, the image from the start, bytes beyond untouched. "
+                "Non-trivial = at least two flushes; distinct = "
                 "distinct (result, #faults, start-at-end, op-kind sequence).",
-        "expected_tags": ["result.ok", "result.err", "result.err-new", "script.fault", "script.short", "start.atEnd", "start.zero", "start.beyond4G", "op.patch"],
+        "expected_tags": ["result.ok", "result.err", "result.err-new", "script.fault", "script.short", "start.atEnd", "start.zero", "start.beyond4G", "op.patch", "dest.equal", "start.nonzero"],
         "trusted_base": ["the destination honours seek (not O_APPEND) and a write that returns Ok(n) stored exactly the first n bytes",
                          "std::io::Write::write_all loop semantics (modelled; compared call by call)"],
         "assumptions": ["start offset inside the destination's existing content (theorem hypothesis; the gap case is compared against the model only)",
@@ -33,8 +35,10 @@ PROPS = {
     "C10": {
         "rule": "same generator as C09 (failures only, no short writes) with a snapshot of the destination after every trait-level call; "
                 "every snapshot taken after the first successful write is checked with the prefix-consistency predicate and compared with the "
-                "model's call-boundary states. Non-trivial = at least one directory entry published; distinct as in C09.",
-        "expected_tags": ["result.ok", "result.err", "script.fault", "snap.checked"],
+                "model's call-boundary states. Plus real dumps of live targets (the C01 generator) over a recording destination: the call log is replayed "
+                "and after every write each directory entry visible so far must have its stream and every object the stream refers to (stacks, contexts, "
+                "names, CodeView records, memory, link maps) already in the destination; nothing already flushed may be rewritten except a directory slot. Non-trivial = at least one directory entry published; distinct as in C09.",
+        "expected_tags": ["result.ok", "result.err", "script.fault", "snap.checked", "states.checked", "entries.many"],
         "trusted_base": ["write calls are atomic (File / Cursor behaviour); torn writes are C09's failure post-condition"],
         "assumptions": ["granularity = Write/Seek trait calls", "an entry and everything it references lie inside the image built when it is published (C01)"],
         "explanation": "C10_flush: every destination state after a completed call of write_to_file is a consistent snapshot of the old or the new "
